@@ -203,6 +203,9 @@ def dynStr : GetRes → String
   | .nostr t v => s!"false/{t.toNat}/{v.toNat}/-"
   | .ok t v s => s!"true/{t.toNat}/{v.toNat}/{bytesStr s}"
 
+def symStr (r : Inspect.SymOut) : String :=
+  s!"{r.ret}/{bytesStr r.name}/{r.attrs.value.toNat}/{r.attrs.size.toNat}/{r.attrs.bind.toNat}/{r.attrs.typ.toNat}/{r.attrs.shndx.toNat}/{r.attrs.other.toNat}"
+
 def attrStr (a : Modinfo.Attr) : String := bytesStr a.1 ++ "=" ++ bytesStr a.2
 
 /-- runs the queries one after the other on the model (`Inspect.inspect`); the first fault ends the op -/
@@ -268,6 +271,10 @@ def inspectStep (o : Obj) (t : List String) : Option (Obj × String) :=
     let i := parseNat i
     some (countedOp o "dyn" (.dynNum i) (fun _ => none) true
       (fun k => .dyn i (BitVec.ofNat 64 k)) (fun out => match out with | .dyn r => dynStr r | _ => "?"))
+  | ["syms", i] =>
+    let i := parseNat i
+    some (countedOp o "syms" (.symNum i) (fun _ => none) true
+      (fun k => .sym i (BitVec.ofNat 64 k)) (fun out => match out with | .sym r => symStr r | _ => "?"))
   | ["modinfo", i] => some (modinfoOp o (parseNat i))
   | ["dump"] =>
     match Inspect.inspect o .dump with
@@ -277,7 +284,7 @@ def inspectStep (o : Obj) (t : List String) : Option (Obj × String) :=
 -- ---- end of C01 inspection helpers ----
 
 def step (o : Obj) (t : List String) : Obj × String :=
-  -- ---- C01 inspection ops (notes, segnotes, dyn, modinfo, dump): Model/Inspect.lean
+  -- ---- C01 inspection ops (notes, segnotes, dyn, syms, modinfo, dump): Model/Inspect.lean
   match inspectStep o t with
   | some r => r
   | none =>
